@@ -206,3 +206,31 @@ Print Assumptions C02_call_fix_values.
 Print Assumptions C02_call_fix_complete.
 Print Assumptions C02_call_fix_nodup.
 Print Assumptions C02_call_nofix_values.
+
+(* values in which lists / tuples, dict displays and constructor calls of dataclass-like classes are nested in each other at ANY depth
+   (Model/Nest.v; `ct` is the class table: the fields of every class with their defaults): with fix approved, whatever the hand-written
+   expression was - other type, longer, shorter, reordered, other keys, other / positional / missing arguments, dict displays that repeat
+   a key - and whatever else is approved, the repaired text evaluates to a value that is == the observed one (Python's ==: dicts as
+   finite maps).  Premises: the source holds no user-controlled part (those are exempt) and no call repeats a keyword; the observed value is
+   well-formed (no dict holds a key twice, an object has exactly the fields of its class). *)
+From V Require Model.Nest Proofs.NestProofs Proofs.NestValue Proofs.NestFix Proofs.NestEqual.
+Theorem C02_nest_fix_value :
+  forall (ct : Nest.ctab) (F : flags) (o : Nest.ntree) (n : Nest.nval),
+  NestFix.ct_ok ct -> NestFix.okt o = true -> NestFix.okv ct n = true -> f_fix F = true ->
+  Nest.val_eqb (Nest.eval_r ct (Nest.assign_nest ct F o n)) n = true.
+Proof. exact NestFix.nest_fix_value_top. Qed.
+(* the recursion depth (fuel) of the model never matters beyond the depth of the expression *)
+Theorem C02_nest_fuel_irrelevant :
+  forall (ct : Nest.ctab) (f1 f2 : nat) (F : flags) (o : Nest.ntree) (n : Nest.nval),
+  Nest.depth o < f1 -> Nest.depth o < f2 -> Nest.assign ct f1 F o n = Nest.assign ct f2 F o n.
+Proof. exact NestProofs.nest_fuel_irrelevant. Qed.
+(* the premises hold for non-trivial inputs: a dict display holding a list with a constructor call and a 1-tuple, and a call; observed with
+   other keys, another list and changed fields *)
+Theorem C02_nest_fix_premises_hold :
+  NestFix.okv NestEqual.ex_ct NestEqual.ex_new2 = true /\
+  Nest.val_eqb (Nest.eval NestEqual.ex_ct NestEqual.ex_old) NestEqual.ex_new2 = false /\
+  Nest.val_eqb (Nest.eval_r NestEqual.ex_ct (Nest.assign_nest NestEqual.ex_ct {| f_create := false; f_fix := true; f_trim := false; f_update := false |} NestEqual.ex_old NestEqual.ex_new2)) NestEqual.ex_new2 = true.
+Proof. exact NestEqual.nest_fix_premises_hold. Qed.
+Print Assumptions C02_nest_fix_value.
+Print Assumptions C02_nest_fuel_irrelevant.
+Print Assumptions C02_nest_fix_premises_hold.
